@@ -30,6 +30,9 @@ type Desc struct {
 	Prim Tok     `json:"prim,omitempty"`
 	Own  []Field `json:"own,omitempty"`
 	Inh  []Field `json:"inh,omitempty"`
+	// Rd: every own field is an accessor that logs "Rd:<field>" when read, so the order in which
+	// ToPropertyDescriptor (8.10.5 steps 3-8) reads the fields, and where it stops, is observed.
+	Rd bool `json:"rd,omitempty"`
 }
 
 // NamedDesc is one entry of a Properties map literal.
@@ -101,7 +104,7 @@ func resolveTok(t Tok, nobj int) Tok {
 }
 
 func resolveDesc(d Desc, nobj int) Desc {
-	out := Desc{Prim: resolveTok(d.Prim, nobj)}
+	out := Desc{Prim: resolveTok(d.Prim, nobj), Rd: d.Rd}
 	for _, f := range d.Own {
 		out.Own = append(out.Own, Field{f.F, resolveTok(f.V, nobj)})
 	}
@@ -194,6 +197,9 @@ func jsDesc(d Desc) string {
 	}
 	if len(d.Inh) > 0 {
 		return "__inh(" + jsFields(d.Inh) + ", " + jsFields(d.Own) + ")"
+	}
+	if d.Rd {
+		return "__rd(" + jsFields(d.Own) + ")"
 	}
 	return jsFields(d.Own)
 }
@@ -314,6 +320,7 @@ function S2(v) { __log.push("S2@" + __v(this) + "(" + __args(arguments) + ")"); 
 function __LG(self, n) { __log.push("Lg:" + n + "@" + __v(self) + "()"); return "lg"; }
 function __LS(self, n, v) { __log.push("Ls:" + n + "@" + __v(self) + "(" + __v(v) + ")"); }
 function __new(o) { O[O.length] = o; return o; }
+function __rd(o) { var d = {}, k; for (k in o) (function (k, v) { Object.defineProperty(d, k, {get: function () { __log.push("Rd:" + k + "@obj?()"); return v; }, enumerable: true, configurable: true}); })(k, o[k]); return d; }
 function __inh(p, own) { var d = Object.create(p), k; for (k in own) d[k] = own[k]; return d; }
 function __ec(e) { return (e instanceof TypeError) ? "TypeError" : "other(" + e + ")"; }
 function __l(a) { var s = "", i; for (i = 0; i < a.length; i++) s += (i ? "," : "") + a[i]; return s; }
